@@ -10,8 +10,9 @@ ID = "C15"
 LEVEL = "exploration"
 RULE = ("scenario = run_forever(reconnect=r), r in {1/4, 1, 5, 30} s (argument or setReconnect), against a sequence of <=6 "
         "connection outcomes {refused, handshake rejected, established then lost by end of stream / reset / ping timeout, "
-        "established then server close frame} with 0..3 messages on every established connection; optional close() from "
-        "the k-th on_message callback or from a second thread at a virtual time (including inside the back-off sleep); "
+        "established then server close frame (optionally followed at once by a reset)} with 0..3 messages on every established connection; optional close() from "
+        "the k-th on_message callback, from a second thread at a virtual time (built-in loop) or from a timer of the external "
+        "dispatcher (including inside the back-off wait); "
         "on_reconnect given or not; built-in loop and the SimRel external-dispatcher stub; seeded schedules.  Oracle from "
         "the network log and the callback trace: after an abnormal loss observed at L the next connection attempt starts "
         "at A with r <= A-L <= r+5 s (after a ping timeout: within the liveness bound); attempts repeat until one "
@@ -21,7 +22,7 @@ RULE = ("scenario = run_forever(reconnect=r), r in {1/4, 1, 5, 30} s (argument o
         "completely: every outcome sequence of length <=3 over 5 outcome kinds x {builtin, rel}; close() at 40 instants "
         "across a refused-refused-established history.  non-trivial = at least one loss followed by an attempt; distinct "
         "= (outcome sequence, r, dispatcher, on_reconnect?, closer kind and phase)")
-ASSUMPTIONS = ["ping timeout under the external-dispatcher stub is not generated (the stub's exception semantics are ours)",
+ASSUMPTIONS = ["an exception escaping a callback into the external dispatcher ends dispatch() (the stub's choice; rel's own behaviour is not modelled)",
                "on_error is not judged here (C14)", "slack of 5 s after the interval covers the library's bounded thread join"]
 STUB = ["external dispatcher `rel` (sim/simrel.py follows rel's documented contract)"]
 KINDS = ("refused", "rejected", "eof", "reset", "ping_timeout", "server_close")
@@ -47,7 +48,7 @@ def _out(kind, msgs=1, at=S):
 def expand(item, seed):
     k = item["kind"]
     if k == "seqs":
-        kinds = [x for x in KINDS if x != "server_close" and not (item["disp"] == "rel" and x == "ping_timeout")]
+        kinds = [x for x in KINDS if x != "server_close"]
         seqs = [[]] + [[a] for a in kinds] + [[a, b] for a in kinds for b in kinds]
         for cut in ("mid_frame", "after_first_fragment", "mid_header"):
             for kind_ in ("eof", "reset"):
@@ -60,12 +61,14 @@ def expand(item, seed):
                 if "ping_timeout" in sq:
                     sc["ping"] = {"interval": 2 * S, "timeout": S}
                 yield sc
+                if onrec and len(sq) <= 1:
+                    yield dict(sc, outcomes=[_out(x) for x in sq] + [dict(_out("server_close", 2), then_reset=True)])
     elif k == "closer_sweep":
         base = {"outcomes": [_out("refused"), _out("refused"), _out("eof", 1, S), _out("server_close", 1, 40 * S)], "reconnect": 2 * S,
                 "via": "arg", "on_reconnect": True, "policy": {"kind": "coop", "p_call": 0.0}, "seed": 1}
-        for disp in ("builtin",):
+        for disp in ("builtin", "rel"):
             for i in range(40):
-                yield dict(base, dispatcher=disp, closer={"kind": "time", "t": i * (S // 4) + 3})
+                yield dict(base, dispatcher=disp, closer={"kind": "time" if disp == "builtin" else "rel_timer", "t": i * (S // 4) + 3})
     else:
         for i in range(item["start"], item["start"] + item["count"]):
             yield gen(random.Random(derive_seed(seed, ID, i)))
@@ -74,20 +77,22 @@ def expand(item, seed):
 def gen(rng):
     disp = rng.choice(("builtin", "builtin", "rel"))
     n = rng.randrange(0, 6)
-    kinds = [x for x in KINDS if x != "server_close" and not (disp == "rel" and x == "ping_timeout")]
+    kinds = [x for x in KINDS if x != "server_close"]
     outs = [_out(rng.choice(kinds), rng.randrange(0, 4), rng.choice((S // 4, S, 3 * S))) for _ in range(n)]
     for o in outs:
         if o["kind"] in ("eof", "reset") and rng.random() < 0.4:
             o["cut"] = rng.choice(("mid_frame", "after_first_fragment", "mid_header"))
     outs.append(_out("server_close", rng.randrange(0, 4), rng.choice((S, 4 * S))))
+    if rng.random() < 0.2:
+        outs[-1]["then_reset"] = True
     sc = {"outcomes": outs, "reconnect": rng.choice(R_GRID), "via": rng.choice(("arg", "arg", "setReconnect")),
           "on_reconnect": rng.random() < 0.6, "dispatcher": disp, "closer": None, "seed": rng.randrange(1 << 30)}
-    if any(o["kind"] == "ping_timeout" for o in outs) or rng.random() < 0.2 and disp != "rel":
+    if any(o["kind"] == "ping_timeout" for o in outs) or rng.random() < 0.2:
         sc["ping"] = rng.choice(({"interval": 2 * S, "timeout": S}, {"interval": 5 * S, "timeout": 2 * S}))
     r = rng.random()
-    if r < 0.25 and disp != "rel":
+    if r < 0.25:
         total = sum(o["at"] + sc["reconnect"] for o in outs)
-        sc["closer"] = {"kind": "time", "t": rng.randrange(1, max(2, total))}
+        sc["closer"] = {"kind": "time" if disp != "rel" else "rel_timer", "t": rng.randrange(1, max(2, total))}
     elif r < 0.4:
         sc["closer"] = {"kind": "callback", "n": rng.randrange(1, 5)}
     sc["policy"] = rng.choice(({"kind": "coop", "p_call": 0.0}, {"kind": "coop", "p_call": 0.3},
@@ -115,6 +120,8 @@ def run(sc, choices=None):
         closer = sc.get("closer")
         if closer and closer.get("kind") == "time" and disp == "rel":
             raise InvalidScenario("close() from a second thread under an external dispatcher is outside the dispatcher's contract")
+        if closer and closer.get("kind") == "rel_timer" and disp != "rel":
+            raise InvalidScenario("a dispatcher timer needs the external dispatcher")
         conns = []
         msg_id = 0
         expected_msgs = []  # per established connection
@@ -122,8 +129,8 @@ def run(sc, choices=None):
             kind = o["kind"]
             if kind not in KINDS:
                 raise InvalidScenario("kind")
-            if kind == "ping_timeout" and (not ping or disp == "rel"):
-                raise InvalidScenario("ping timeout needs ping settings and the built-in loop")
+            if kind == "ping_timeout" and not ping:
+                raise InvalidScenario("ping timeout needs ping settings")
             if kind == "refused":
                 conns.append({"outcome": "refused"})
                 continue
@@ -157,7 +164,12 @@ def run(sc, choices=None):
             elif kind == "ping_timeout":
                 spec["on_ping"] = {"mode": "never"}
             else:
-                script.append({"t": at, "hex": R.encode_frame(1, 8, b"\x03\xe8bye").hex()})
+                it_ = {"t": at, "hex": R.encode_frame(1, 8, b"\x03\xe8bye").hex()}
+                if o.get("then_reset"):
+                    # the server resets the connection right behind its close frame: the client's reply cannot be written
+                    it_["client_send_fail"] = "ECONNRESET"
+                    it_["end"] = "reset"
+                script.append(it_)
             conns.append(spec)
             expected_msgs.append((kind, msgs))
     except (KeyError, TypeError, ValueError) as e:
@@ -167,8 +179,8 @@ def run(sc, choices=None):
         cbs["on_reconnect"] = {"do": "ok"}
     app_closer = None
     if closer:
-        if closer.get("kind") == "time":
-            app_closer = {"kind": "time", "t": int(closer["t"])}
+        if closer.get("kind") in ("time", "rel_timer"):
+            app_closer = {"kind": closer["kind"], "t": int(closer["t"])}
         elif closer.get("kind") == "callback":
             cbs["on_message"] = {"do": "close", "nth": int(closer["n"])}
         else:
@@ -328,7 +340,7 @@ def run(sc, choices=None):
 
 
 def _fin(res, sc, outs, closer_phase):
-    res.sig = repr((tuple((o["kind"], o.get("cut")) for o in outs), sc["reconnect"], sc.get("dispatcher"), bool(sc.get("on_reconnect")),
+    res.sig = repr((tuple((o["kind"], o.get("cut"), bool(o.get("then_reset"))) for o in outs), sc["reconnect"], sc.get("dispatcher"), bool(sc.get("on_reconnect")),
                     (sc.get("closer") or {}).get("kind"), closer_phase, res.sched if res.switches else ""))
     res.nontrivial = len(outs) > 1
     for o in outs:
